@@ -216,3 +216,28 @@ Definition reopen (cfg : config) (st : tbstate) : tbstate * bool :=
   ({| s_root := r1; s_mut := m; s_last := None; s_cnt_flush := 0; s_cnt_cleanup := 0; s_buffered := 0;
       s_clog := if id =? s_folder st1 then s_clog st1 else 1;
       s_h0 := s_h0 st1; s_snaps := []; s_dumps := []; s_folder := id; s_tsfile := tsf |}, true).
+
+(* ---------- the state machine over operations (what the harness drives) ---------- *)
+Inductive mop :=
+| MInsert (kvts : list kvt)
+| MIncTs (ts : N)
+| MFlush (pct : bool)
+| MSync
+| MCompact
+| MReopen
+| MSnap (id ts : N) (renew : bool)
+| MSnapClose (id : N).
+
+Definition mstep (cfg : config) (st : tbstate) (o : mop) : tbstate :=
+  match o with
+  | MInsert kvts => fst (bulk_insert cfg kvts st)
+  | MIncTs ts => fst (increase_ts cfg ts st)
+  | MFlush pct => flush_tree cfg pct true st
+  | MSync => flush_tree cfg false false st
+  | MCompact => fst (compact cfg st)
+  | MReopen => fst (reopen cfg st)
+  | MSnap id ts renew => fst (snapshot cfg id ts renew st)
+  | MSnapClose id => fst (snap_close id st)
+  end.
+
+Definition mrun (cfg : config) (ops : list mop) : tbstate := fold_left (mstep cfg) ops init_state.
